@@ -99,8 +99,28 @@ def h_msgs(paths, codes):
 
 
 def enc(n):
-    """message code -> JSON message"""
+    """message code -> JSON message.  Bot replies (codes >= 2000000) range over edge shapes chosen
+    by the code: empty / whitespace / null / missing content, content equal to an earlier user
+    message, very long content, non-string content, an "exception" message as the rails produce
+    them; a key "n" carries the code wherever the content cannot."""
     if n >= 2000000:
+        k = n % 12
+        if k == 0:
+            return {"role": "assistant", "content": "", "n": n}
+        if k == 1:
+            return {"role": "assistant", "content": " \n\t", "n": n}
+        if k == 2:
+            return {"role": "assistant", "content": None, "n": n}
+        if k == 3:
+            return {"role": "assistant", "n": n}
+        if k == 4:
+            return {"role": "assistant", "content": "m5" + DECOR[5], "n": n}
+        if k == 5:
+            return {"role": "assistant", "content": f"b{n}" + "x" * 2000}
+        if k == 6:
+            return {"role": "exception", "content": {"type": "ValueError", "uid": "u", "message": f"b{n}"}, "n": n}
+        if k == 7:
+            return {"role": "assistant", "content": [{"type": "text", "text": f"b{n}"}], "n": n, "extra": {"a": [1, None]}}
         return {"role": "assistant", "content": f"b{n}"}
     if n >= 1000000:
         return {"role": "context", "content": {"k": n - 1000000}}
@@ -110,14 +130,17 @@ def enc(n):
 def dec(m):
     """JSON message -> code (BADCODE when it is not the encoding of any code)"""
     try:
-        c = m["content"]
-        if m["role"] == "context":
-            n = 1000000 + int(c["k"])
-        elif c.startswith("b"):
-            n = int(c[1:])
+        if "n" in m:
+            n = int(m["n"])
         else:
-            mm = re.match(r"m(\d+)", c)
-            n = int(mm.group(1))
+            c = m["content"]
+            if m["role"] == "context":
+                n = 1000000 + int(c["k"])
+            elif c.startswith("b"):
+                n = int(re.match(r"b(\d+)", c).group(1))
+            else:
+                mm = re.match(r"m(\d+)", c)
+                n = int(mm.group(1))
         return n if enc(n) == m else BADCODE
     except Exception:
         return BADCODE
@@ -140,6 +163,8 @@ class Impl:
         self.api = api
         self.MemoryStore = MemoryStore
         self.GenerationOptions = GenerationOptions
+        from nemoguardrails.rails.llm.options import GenerationResponse
+        self.GenerationResponse = GenerationResponse
         self.loads = []
         self.used = []
         self.pfx, self.sfx = pfx, sfx
@@ -175,7 +200,10 @@ class Impl:
                 h = h_msgs(self.config.paths, codes)
                 if h % 13 == 0:
                     raise RuntimeError("fake llm failure")
-                return enc(2000000 + h)
+                reply = enc(2000000 + h)
+                if h % 7 == 3:      # the GenerationResponse path of chat_completion (res.response[0])
+                    return impl.GenerationResponse(response=[reply])
+                return reply
 
         api.RailsConfig = FakeRailsConfig
         api.LLMRails = FakeLLMRails
